@@ -11,7 +11,7 @@ GLOBAL_ASSUMPTIONS = [
 PROPS = {
     "C01": {"units": ["glue", "streams"]},
     "C02": {"units": ["glue", "range", "streams"]},
-    "C03": {"units": ["glue", "range"]},
+    "C03": {"units": ["glue", "range"], "kani": ["K1"]},
     "C04": {"units": ["glue", "cond", "etag"]},
     "C05": {"units": ["glue", "etag"]},
     "C06": {"units": ["glue", "streams"]},
@@ -20,10 +20,10 @@ PROPS = {
     "C10": {"units": ["chunker"]},
     "C11": {"units": ["chunker", "build"]},
     "C12": {"units": ["streams", "chunker"]},
-    "C13": {"units": ["glue", "range", "cond", "etag", "streams"]},
+    "C13": {"units": ["glue", "range", "cond", "etag", "streams"], "kani": ["K1"]},
     "C14": {"units": ["glue", "cond", "etag"]},
     "C15": {"units": ["glue", "build"]},
-    "C16": {"units": ["gz"]},
+    "C16": {"units": ["gz"], "kani": ["K4"]},
     "C17": {"units": ["build", "gz", "chunker"]},
     "C19": {"units": ["path"]},
     "C20": {"units": ["streams", "chunker"]},
@@ -37,3 +37,45 @@ NOT_APPLICABLE = [
     {"property_id": "C18", "reason": "decided by pread/fstat semantics, unsafe FFI in platform.rs and an async closure inside futures unfold + tokio block_in_place: Verus supports neither async nor FFI, Kani has no model of those syscalls"},
 ]
 NOTES = "One driver: ./check <ID> --tier quick|thorough. Exit 2 (inconclusive: lost anchor, tool error, rlimit) never occurs on the unchanged tree."
+
+
+# ---- per-property claim texts (MANIFEST level_claimed.text / level_note) and evidence annotations ----
+T_VERUS = "contract-based deductive verification: Verus on the real function bodies, extracted mechanically from /repo on every run"
+META = {
+ "C01": ("proof", "Every obligation is discharged by Verus on the real bodies: serve/serve_inner/prepare_multipart fix Content-Length to the length the body stream accounts for (ExactLenStream::new(b-a, ..), MultipartStream::new(len = exact multipart length)); ExactLenStream/MultipartStream/Body::poll_frame step contracts plus the trace lemma give 'never more than announced, exactly announced at a clean end' for every chunking, any number of polls and parts, all u64 lengths.",
+         "assumed: http/httpdate/bytes/futures contracts in prelude/*.rs; integer Display is decimal (header values are checked as format literal + arguments); the entity's Data conversions preserve bytes", [], ["Body::from(&str)/From<String> conversions (str bytes are opaque to Verus)"]),
+ "C02": ("proof", "serve_inner's contract pins Content-Range (a, b-1, L), the single get_range(a..b) call and the ExactLen body of that very stream, with a < b <= L from range::parse's proved contract; ExactLenStream/poll_frame pass each chunk through unchanged; MultipartStream emits chunks only from the stream created for ranges[i].",
+         "assumed: the entity returns the right bytes for a range (it is the quantified input); str lexing primitives (split/find/trim/slicing/u64::from_str) as uninterpreted functions", [], []),
+ "C03": ("proof", "range::parse is proved against an RFC 7233 resolver written from the statement (all u64 numbers, any number of list elements, overflow-free); serve_inner is proved to dispatch None/one/several/unsatisfiable to 200/206/multipart-or-200/416 with the exact Content-Range, the multipart decision being the 80-bytes-per-part estimate < L. Kani re-checks parse on the real str code for header templates.",
+         "assumed: meaning of core::str primitives and u64::from_str inside Verus (opaque Str); Kani K1 ties them to the real code only for the listed template shapes (bounded)", ["Kani K1: complete in numbers and entity length per template; templates: 1 spec (3 forms), other unit / no hyphen; 2 specs with OWS in the thorough tier"], []),
+ "C04": ("proof", "etag.rs weak_eq/strong_eq/List::next are proved against a byte-level RFC 7232 specification (any tag bytes, commas and spaces inside tags), any_match/none_match against the list semantics (loop invariants, any list length), parse_modified_hdrs against the precedence rules with whole-second date comparison, and serve_inner maps (412 iff .., 304 iff ..) in that order.",
+         "assumed: httpdate parses/prints whole seconds; HeaderMap::get returns the first value (repeated header lines are outside the ghost view)", [], []),
+ "C05": ("proof", "serve_inner's If-Range gate is proved: Range is honoured iff If-Range is absent or a tag-form value that strong_eq's the entity's ETag (strong_eq proved byte-exact in unit etag); every other value gives the full 200 without Content-Range and entity headers only on 200.", "as C04", [], []),
+ "C06": ("proof", "prepare_multipart is proved to render each part header as delimiter + Content-Range(a, b-1, L) + rendered entity headers + blank line and to return exactly sum(header_i + |range_i|) + 9 (or an error exactly on u64 overflow); MultipartStream::poll_next is proved to emit header i, the chunks of the stream created for ranges[i], ..., the trailer, in order; serve ties the two together (same ranges, same length, request order).",
+         "assumed: integer Display is decimal (part header text is a format literal plus arguments); HeaderMap iteration yields the entity's headers in order", [], ["that the formatted numbers contain only digits (Display of u64)"]),
+ "C07": ("proof", "ExactLenStream::poll_next / Body::poll_frame are proved to turn an early end, an inner error or an over-long chunk into an error and never to pass more than `remaining`; MultipartStream::poll_next is proved to report an error whenever the current part's stream faults and to be terminal afterwards; the trace lemma lifts this to all chunkings and fault positions.", "as C01", [], []),
+ "C08": ("proof", "chunker::Writer::{write,flush,flush_helper,drop} and Reader::poll_next are proved against a FIFO specification (accepted prefix, non-empty chunks, flush publishes the buffer, end only when queue empty and writer dropped); the composition lemma shows delivered ++ queued ++ buffered == accepted is preserved by every operation, hence for every history; BodyWriter delegates to it (proved).",
+         "assumed: std::sync::Mutex gives mutual exclusion and is never poisoned (rule R4); Vec capacity behaviour (no reallocation within capacity, Vec::new() has capacity 0); queued bytes fit in usize", [], ["gzip writer path (GzEncoder is opaque)"]),
+ "C10": ("proof", "safety part only: Reader::poll_next is proved to return Pending only with nothing available and the caller's waker registered; every producer critical section that publishes something is proved to empty the waker slot and to wake exactly the waker it took (ghost wake log); the no-lost-wake-up invariant is proved inductive over all interleavings of those critical sections and wake deliveries (any waker ids, spurious polls).",
+         "assumed: Mutex atomicity (R4), Waker::will_wake implies same task, wake-ups issued are eventually delivered and the producer thread runs (liveness is NOT proved, only the invariant that makes it follow)", [], ["liveness under a real scheduler"]),
+ "C11": ("proof", "Writer::abort is proved to install the error, release the queue and wake; Reader::poll_next to report that error once and fuse; is_end_stream to be false while the error is pending; BodyWriter to be Dead after abort and to fail every later write/flush; Reader::drop (whose existence is an obligation) to fuse the shared state and release the queue, after which flush of buffered data and chunk-completing writes fail (proved).",
+         "as C08; flush with an empty buffer after disconnect may still return Ok (nothing is buffered)", [], ["gzip writer internals"]),
+ "C12": ("proof", "Body::size_hint/is_end_stream dispatch is proved; remaining == bytes still owed is the proved invariant of ExactLenStream/MultipartStream; Reader's hint is proved to be lower = queued bytes, upper only once the writer is gone, and end-of-stream only when nothing (not even an abort error) is pending.", "as C01 and C08", [], []),
+ "C13": ("proof", "Verus proves every extracted body free of arithmetic overflow, out-of-range indexing/slicing and failing unwrap/expect/assert for all inputs (no preconditions on serve beyond well-formed ghost views); the status set and the 405 clause are postconditions of serve; buffer capacities of the header formatters are obligations.",
+         "assumed: no panics inside http/httpdate/bytes (their contracts); fmt_http_date needs a time in [epoch, year 9999]", ["Kani K1 (panic freedom of range::parse on real str code per template)"], ["panics inside dependencies; entities that panic"]),
+ "C14": ("proof", "serve_inner's contract gives Accept-Ranges, the unchanged ETag, Date and Last-Modified = min(mtime, now) on 200/206/304/412/416 and entity headers exactly on 200 / 206-without-If-Range; the echo clauses of any_match/none_match/parse_modified_hdrs/strong_eq give the cache-friendly answers.",
+         "assumed: httpdate round-trips whole seconds. KNOWN FINDING: for a future-dated entity the served Last-Modified is the clock, so the date echo does not round-trip", [], []),
+ "C15": ("proof", "serve_inner is proved to read nothing and return an empty body for HEAD, and its status/header clauses are method-independent (the HEAD instance is reported for C15 when the GET instance verifies); streaming_body/build are proved to return the same headers and no writer for HEAD.", "as C01", [], []),
+ "C16": ("proof", "should_gzip is proved, for any number of list elements, to implement the stated preference over the lexical primitives (split, split_once, trim, strip_prefix, literal comparison, qvalue); parse_qvalue's lexing is checked by Kani on all ASCII strings of length <= 6.",
+         "assumed: meaning of core::str primitives (opaque Str)", ["Kani K4: parse_qvalue on ASCII strings of length <= 6 (bounded; grammatical qvalues have <= 5 bytes)"], []),
+ "C17": ("proof", "streaming_body/with_*/build are proved: Vary always, Content-Encoding: gzip iff should_gzip && level > 0 iff the writer is the Gzipped variant with that level, for both AsRequest impls; chunk_size > 0 is a stated precondition (the real code panics otherwise).",
+         "assumed: flate2 produces gzip data from a Gzipped writer (C09 is not claimed)", [], ["the bytes flate2 emits"]),
+ "C19": ("proof", "path-validation clause only: validate_path is proved, for byte strings of any length, to refuse exactly the paths that are absolute, contain NUL or have a `..` segment.",
+         "assumed: memchr returns the first index; the file-opening clauses (openat, .gz lookup, directories) are OS behaviour and not covered", ["native bounded stand-in for FsDir::get when validate_path cannot be analysed: paths of <= 4 segments"], ["which file openat opens; .gz substitution; encoding headers"]),
+ "C20": ("proof", "terminal states are proved absorbing: ExactLenStream with remaining == 0 and a finished inner stream keeps returning None; MultipartStream is terminal (cur = None, state = end, remaining = 0) after any error or end and returns None from then on without indexing; Reader fuses after end/error; Once bodies take() their value.",
+         "assumed: the entity's streams stay finished once finished or failed (as the property states)", [], []),
+}
+for _k, (_lvl, _text, _note, _bounded, _notcov) in META.items():
+    if _k in PROPS:
+        PROPS[_k].update({"level_text": _text, "level_note": _note, "bounded": _bounded, "not_covered": _notcov,
+                          "technique": T_VERUS + ("; Kani/CBMC harnesses on the real crate for the string lexers (bounded, labelled)" if PROPS[_k].get("kani") else "")})
